@@ -29,6 +29,9 @@ VERIF = os.path.dirname(os.path.dirname(os.path.dirname(os.path.abspath(__file__
 
 def _apply(root: str, edit) -> Optional[str]:
     """apply edit to scratch ``root``; returns None on success or a reason."""
+    if edit.get("patch"):
+        r = subprocess.run(["patch", "-s", "-p1", "-i", edit["patch"]], cwd=root, capture_output=True, text=True)
+        return None if r.returncode == 0 else "patch does not apply: " + (r.stdout + r.stderr)[-200:]
     for step in edit["steps"]:
         path = os.path.join(root, step["file"])
         if not os.path.exists(path):
@@ -63,7 +66,7 @@ def run_one(edit, prop: str) -> Dict:
         if why:
             return {"id": edit["id"], "prop": prop, "status": "skipped", "why": why}
         # the edit must still compile
-        for step in edit["steps"]:
+        for step in edit.get("steps", []):
             try:
                 compile(open(os.path.join(tmp, step["file"]), encoding="utf-8").read(), step["file"], "exec")
             except SyntaxError as e:
@@ -84,6 +87,21 @@ def run_one(edit, prop: str) -> Dict:
         return res
     finally:
         shutil.rmtree(tmp, ignore_errors=True)
+
+
+def harmless_patches() -> List[Dict]:
+    """independently written single edits that are harmless on their own (halves of
+    'two cooperating edits' seeded changes): every check must stay silent on each."""
+    d = os.path.join(VERIF, "seeded", "_harmless")
+    out = []
+    if os.path.isdir(d):
+        for f in sorted(os.listdir(d)):
+            if f.endswith(".patch"):
+                out.append({"kind": "twin", "id": "harmless-" + f[:-6], "props": list(ALL_PROPS), "patch": os.path.join(d, f), "steps": [], "desc": "harmless half of a seeded two-edit change"})
+    return out
+
+
+ALL_PROPS = ["C01", "C02", "C03", "C04", "C05", "C07", "C08", "C09", "C10", "C11", "C12", "C13", "C14", "C15", "C16", "C17", "C18", "C19", "C20"]
 
 
 def run_many(pairs: List, jobs: int = 16) -> List[Dict]:
@@ -108,7 +126,7 @@ def summarise(results: List[Dict]) -> Dict:
 
 
 def run_for(prop: str, seed: int = 0) -> Dict:
-    pairs = [(e, prop) for e in edits.ALL if prop in e["props"]]
+    pairs = [(e, prop) for e in edits.ALL + harmless_patches() if prop in e["props"]]
     if seed:
         import random
 
@@ -127,7 +145,7 @@ def main(argv=None):
     ap.add_argument("-v", action="store_true")
     a = ap.parse_args(argv)
     pairs = []
-    for e in edits.ALL:
+    for e in edits.ALL + harmless_patches():
         if a.id and a.id not in e["id"]:
             continue
         for p in e["props"]:
